@@ -229,6 +229,8 @@ fn explore(cx: &mut Ctx, rng: &mut Rng) {
         format_width_cases(thorough, &mut sink);
         packed_args_cases(thorough, &mut sink);
         string_escape_cases(&mut sink);
+        file_io_cases(thorough, &mut sink);
+        size_argument_cases(&sweep.eps, thorough, &mut sink);
         container_reentrancy_cases(&sweep.eps, thorough, &mut sink);
         iterator_invalidation_cases(thorough, &mut sink);
     }
@@ -267,6 +269,8 @@ fn explore(cx: &mut Ctx, rng: &mut Rng) {
         format_width_cases(thorough, &mut sink);
         packed_args_cases(thorough, &mut sink);
         string_escape_cases(&mut sink);
+        file_io_cases(thorough, &mut sink);
+        size_argument_cases(&sweep.eps, thorough, &mut sink);
         container_reentrancy_cases(&sweep.eps, thorough, &mut sink);
         iterator_invalidation_cases(thorough, &mut sink);
     }
